@@ -635,3 +635,91 @@ def gen_huge_election(rng: random.Random, m=(2, 5), n=(1, 5)):
         ballots.append(b)
     budget = _binding_budget(r, projects)
     return Case(projects, budget, "card", ballots, seed=sub)
+
+
+# ----------------------------------------------------------------------------------------------
+# opt-in generators added in round 4 (nothing above draws from them: the streams of the existing checks are unchanged)
+
+
+def gen_degenerate_election(rng: random.Random, btypes=("app",), m=(1, 5), n=(1, 5)):
+    """degenerate budgets x free projects: the budget limit is exactly 0, exactly the cost of one project, exactly the
+    total cost, or one of these minus/plus the smallest positive cost — on elections that usually hold one or two
+    zero-cost projects, most of them supported by some voter (a rule that decides 'nothing can be bought' from the
+    budget alone forgets the projects that cost nothing)"""
+    sub = rng.getrandbits(48)
+    r = random.Random(sub)
+    btype = r.choice(list(btypes))
+    k = r.randint(*m)
+    names = r.sample(NAME_POOL, k)
+    pool = r.choice([[1, 2, 3], [1, 1, 2], [2, 3, 5], [F(1, 2), 1, F(3, 2)], [1, 2, 4], [F(1, 3), F(2, 3), 1]])
+    costs = [F(r.choice(pool)) for _ in names]
+    free = []
+    if r.random() < 0.8:
+        free = r.sample(range(k), min(k, r.choice([1, 1, 2])))
+        for i in free:
+            costs[i] = F(0)
+    projects = list(zip(names, costs))
+    tot = sum(costs, F(0))
+    pos = [c for c in costs if c > 0]
+    gap = min(pos) if pos else F(1)
+    u = r.random()
+    if u < 0.4:
+        budget = F(0)
+    elif u < 0.6:
+        budget = F(r.choice(costs))
+    elif u < 0.75:
+        budget = tot
+    elif u < 0.85:
+        budget = max(F(0), tot - gap)
+    elif u < 0.95:
+        budget = gap / 2
+    else:
+        budget = tot + gap
+    nv = r.randint(*n)
+    ballots = gen_ballots(r, btype, names, nv, nv)
+    # most free projects get a supporter (for cardinal ballots: a positive score; for rankings: not the last place)
+    for i in free:
+        if r.random() < 0.8:
+            x = names[i]
+            b = ballots[r.randrange(nv)]
+            if btype == "app":
+                if x not in b:
+                    b.append(x)
+            elif btype in ("card", "cum"):
+                b[x] = F(r.choice([1, 2, 3]))
+            else:
+                if x in b:
+                    b.remove(x)
+                b.insert(0, x)
+    return Case(projects, budget, btype, ballots, seed=sub)
+
+
+def gen_overbudget_election(rng: random.Random, m=(2, 6), n=(2, 6)):
+    """approval elections holding a widely supported project that costs MORE than the whole budget limit (by half a unit
+    up to twice the limit), next to cheaper ones that do not all fit: a rule run with inflated voter budgets (iterated
+    Equal Shares) can pay for the dear project although no feasible allocation holds it"""
+    sub = rng.getrandbits(48)
+    r = random.Random(sub)
+    k = r.randint(*m)
+    names = r.sample(NAME_POOL, k)
+    pool = r.choice([[1, 2, 3, 4], [1, 1, 2, 2, 3], [2, 3, 5], [F(1, 2), 1, F(3, 2), 2], [1, 2, 4]])
+    costs = [F(r.choice(pool)) for _ in names]
+    dear = r.sample(range(k), 1 if r.random() < 0.8 or k < 3 else 2)
+    cheap = [c for i, c in enumerate(costs) if i not in dear]
+    budget = sum(r.sample(cheap, r.randint(1, len(cheap))), F(0))
+    if r.random() < 0.3:
+        budget += min(cheap) / 2
+    for i in dear:
+        costs[i] = budget + r.choice([F(1, 2), 1, 1, 2, budget / 2, budget])
+    nv = r.randint(*n)
+    ballots = []
+    for _ in range(nv):
+        p = r.choice([0.3, 0.5, 0.5, 0.7])
+        b = [x for i, x in enumerate(names) if r.random() < (0.8 if i in dear else p)]
+        r.shuffle(b)
+        ballots.append(b)
+    if not any(names[dear[0]] in b for b in ballots):
+        ballots[r.randrange(nv)].append(names[dear[0]])
+    projects = list(zip(names, costs))
+    r.shuffle(projects)
+    return Case(projects, budget, "app", ballots, seed=sub)
